@@ -32,7 +32,7 @@ def build_failure_witness(out):
 def generate(rng, tier):
     # a few base cases through the correspondence so that the evaluated interpolators are the modelled ones
     cases = []
-    for _ in range(20 if tier == "quick" else 200):
+    for _ in range(gen.N(tier, 20, 200)):
         shape, xs, flat, bc, lanes = c02.gen_spline(rng, "Q", tier, nmax=6)
         qs = gen.queries_q(rng, xs, 4, ext=False)
         cases.append({"line": i1_line("Q", xs, shape, flat, ("spl", False, bc), e_array("Q", [len(qs)], qs)), "meta": {}})
@@ -58,7 +58,7 @@ def oracle(case, res):
 
 
 def extra(rng, tier):
-    n = 40 if tier == "quick" else 600
+    n = gen.N(tier, 40, 600)
     seed = rng.randint(1, 2 ** 31)
     out = vlib.run_sub(["history", seed, n])
     fails, summary, hists = [], None, 0
